@@ -13,7 +13,7 @@ ID = "C03"
 MOD = __name__
 
 RULE_TEXT = (
-    "Same space as C01 (every import relation over the fixed small trees x every unrelated rule instantiation, plus "
+    "Same space as C01 (every import relation over the fixed small trees x every rule instantiation with unrelated and with related subjects and objects, plus "
     "Hypothesis trees). Oracle: models.rule_analysis -> set of realised (subject-side, object-side) pairs, "
     "map subject -> objects it is missing for, set of subjects missing any 'other' import; message parsed line by line "
     "(unparsable or duplicate lines are violations) and compared as sets in both directions. The three public query "
@@ -305,11 +305,17 @@ def check_queries(tree, imports, subj, obj, ev) -> dict:
 
 
 def exh_shard(arg, st, deadline) -> None:
-    tkey, shard, nshards, max_edges, root_target, max_s, max_o = arg
+    tkey, shard, nshards, max_edges, root_target, max_s, max_o = arg[:7]
+    related = len(arg) > 7 and arg[7]
     tree = RS.TREES[tkey]
     cand = M.candidate_edges(tree, allow_root_target=root_target, root=tree[0])
-    rules = RS.enum_rules(tree, max_s, max_o, root=tree[0])
-    so = RS.enum_so_kinds(tree, max_s, max_o, root=tree[0])
+    if related:  # some subject is the same module as / above / below some object
+        rules = RS.enum_related_rules(tree, max_s, max_o)
+        so = sorted({(r["subj"]["kind"], tuple(r["subj"]["names"]), r["obj"]["kind"], tuple(r["obj"]["names"])) for r in rules})
+        so = [({"kind": a, "names": list(b)}, {"kind": c, "names": list(d)}) for a, b, c, d in so]
+    else:
+        rules = RS.enum_rules(tree, max_s, max_o, root=tree[0])
+        so = RS.enum_so_kinds(tree, max_s, max_o, root=tree[0])
     i = 0
     for imports in RS.graphs_of(cand, shard, nshards, max_edges):
         if RS.timed_out(deadline, i, 8):
